@@ -451,8 +451,10 @@ let cmd_pg (x : sx) : sx =
   | L [A "pg-cover"; g; root] ->
       let gh = sx_pghost g and r = sx_n root in
       (match pg_cvec_full gh r with
-       | Ok (_, nk) -> L [A "cover"; bool_sx (lines_cover gh r); A "keyed"; bool_sx (nodes_keyed gh nk)]
-       | _ -> L [A "cover"; A "0"; A "keyed"; A "0"])
+       | Ok (_, nk) -> L [A "cover"; bool_sx (lines_cover gh r); A "keyed"; bool_sx (nodes_keyed gh nk);
+                          A "sound"; bool_sx (lines_sound gh r); A "distinct"; bool_sx (keys_distinct nk); A "wf"; bool_sx (pg_host_wfb gh)]
+       | _ -> L [A "cover"; A "0"; A "keyed"; A "0"; A "sound"; A "0"; A "distinct"; A "0"; A "wf"; A "0"])
+  | L [A "pg-hostwf"; g] -> L [A "wf"; bool_sx (pg_host_wfb (sx_pghost g))]
   | L [A "pg-walk"; h; n; p] ->
       L (List.map n_sx (walk_nodes (sx_pghost h) (sx_n n) (sx_port p)))
   | L [A "pg-single"; cs; h] ->
@@ -487,7 +489,7 @@ let dispatch (x : sx) : sx =
   | L (A "c15" :: args) -> cmd_c15 args
   | L (A ("tree" | "powerset" | "conditioned" | "with-children" | "pairwise" | "transitive") :: _) -> cmd_c10 x
   | L ((A ("aut-run" | "cvec" | "single" | "naive" | "cert" | "occ")) :: _ as args) -> cmd_engine args
-  | L (A ("pg-opts" | "pg-walk" | "pg-single" | "pg-naive" | "pg-run" | "pg-cert" | "pg-cvec" | "pg-cover") :: _) -> cmd_pg x
+  | L (A ("pg-opts" | "pg-walk" | "pg-single" | "pg-naive" | "pg-run" | "pg-cert" | "pg-cvec" | "pg-cover" | "pg-hostwf") :: _) -> cmd_pg x
   | _ -> failwith "unknown command"
 
 let () =
